@@ -136,6 +136,7 @@ static std::string unitText(const PUnit &u, const std::string &header) {
         t += u.seps[2 * i + 1];
     }
     if (u.trailingComma) t += n ? "," : " ,";
+    if (n == 0 && !u.trailingComma && !u.lead.empty()) t += u.lead;     // header followed by white space only (reuses the unit's leading white space)
     return t;
 }
 
